@@ -159,6 +159,24 @@ Proof.
   rewrite andb_true_iff, !Z.leb_le. tauto.
 Qed.
 
+(* -d: a time is kept exactly when it lies on one of the requested UTC days [d, d + 86400), for EVERY unix time
+   (negative ones included: floor, not truncation) *)
+Lemma day_start_iff t d : d mod 86400 = 0 -> (t / 86400 * 86400 = d <-> d <= t < d + 86400).
+Proof.
+  intros Hd. pose proof (Z.div_mod t 86400 ltac:(lia)) as E. pose proof (Z.mod_pos_bound t 86400 ltac:(lia)) as B.
+  pose proof (Z.div_mod d 86400 ltac:(lia)) as Ed. rewrite Hd in Ed.
+  split; intros H; [lia|].
+  assert (t / 86400 = d / 86400) by nia. nia.
+Qed.
+Lemma date_ok_day cfg t ds : c_dates cfg = Some ds -> (forall d, In d ds -> d mod 86400 = 0) ->
+  (date_ok V cfg t = true <-> exists d, In d ds /\ d <= t < d + 86400).
+Proof.
+  intros Hc Hm. unfold date_ok. rewrite Hc, zmem_In. split.
+  - intros Hin. exists (t / 86400 * 86400). split; [exact Hin|]. apply day_start_iff; [|reflexivity].
+    rewrite Z.mod_mul; lia.
+  - intros [d [Hin Hr]]. apply (day_start_iff t d (Hm d Hin)) in Hr. rewrite Hr. exact Hin.
+Qed.
+
 Lemma zmem_false x l : zmem x l = false <-> ~ In x l.
 Proof. rewrite <- zmem_In. destruct (zmem x l); split; intros; congruence. Qed.
 
